@@ -261,14 +261,47 @@ def _mutation_events(tid0):
     tab, floats, comp, sp = mutation_table()
     ev = []
     tid = tid0
+    def variants(a):
+        """structured variants of a matrix argument (Hermitian-ness and shape are preserved)"""
+        out = [("dense", a)]
+        if a.ndim != 3:
+            return out
+        m, n = a.shape[:2]
+        dec = a.copy()
+        dec[1:, 0] = 0
+        dec[0, 1:] = 0
+        out.append(("first-row-col-decoupled", dec))          # exactly zero first sub-column / row
+        dg = np.zeros_like(a)
+        for i in range(min(m, n)):
+            dg[i, i] = a[i, i]
+        out.append(("diagonal", dg))
+        out.append(("zero", np.zeros_like(a)))
+        zc = a.copy()
+        if n > 1:
+            zc[:, 1] = 0
+            if m == n:
+                zc[1, :] = 0
+        out.append(("zero-row-col", zc))
+        return out
+
+    skip_exc = (ValueError, ZeroDivisionError, np.linalg.LinAlgError)
     for name, f, args in tab:
-        tid += 1
-        qa = [q_from_float(a) if a.ndim == 3 else quaternion.as_quat_array(a.copy()) for a in args]
-        before = [sha(a) for a in qa]
-        np.random.seed(5)
-        with contextlib.redirect_stdout(io.StringIO()):
-            f(*qa)
-        ev.append({"tid": tid, "ev": "Mutation", "fn": name, "args_unchanged": [sha(a) for a in qa] == before})
+        vlists = [variants(a) for a in args]
+        for vi in range(max(len(v) for v in vlists)):
+            tid += 1
+            cur = [v[vi][1] if vi < len(v) else v[0][1] for v in vlists]
+            vname = vlists[0][vi][0] if vi < len(vlists[0]) else "dense"
+            if name.startswith("QGMRES") and vname in ("zero", "diagonal", "zero-row-col", "first-row-col-decoupled"):
+                cur = [cur[0] + 3 * np.eye(cur[0].shape[0])[:, :, None] * [1.0, 0, 0, 0], args[1]]   # keep the system regular
+            qa = [q_from_float(a) if a.ndim == 3 else quaternion.as_quat_array(a.copy()) for a in cur]
+            before = [sha(a) for a in qa]
+            np.random.seed(5)
+            try:
+                with contextlib.redirect_stdout(io.StringIO()):
+                    f(*qa)
+            except skip_exc:
+                pass            # a rejected structured input (e.g. LU of a zero matrix) must still leave it untouched
+            ev.append({"tid": tid, "ev": "Mutation", "fn": name, "variant": vname, "args_unchanged": [sha(a) for a in qa] == before})
     for name, f, args in floats + comp:
         tid += 1
         fa = [a.copy() for a in args]
